@@ -840,3 +840,679 @@ func rulePU9() Rule {
 			}
 		}}
 }
+
+// ---------------------------------------------------------------------------
+// NL1: a nested lexer reads the same stream as the lexer that creates it.
+//
+// This is the premise of the PF1 exceptions for scanCmdSubst (ll.cmds[0]):
+// "the nested parse succeeded on input starting with '(' or '`'" is true only
+// when the nested lexer takes its runes from exactly the sources of the outer
+// one.  The source fields are read off (*lexer).read: every field of the
+// lexer through which a ReadRune call is made.
+
+func ruleNL1() Rule {
+	return Rule{ID: "NL1", Kind: "must", Floor: 2,
+		Doc: "every lexer created inside a lexer method (the nested lexer of a command substitution) is initialised with each rune source of its creator - the fields through which (*lexer).read calls ReadRune - and the sources held by value (slices) are taken back afterwards: alias text and main source stay one stream across `$(`, `((` and '`'",
+		Run: func(c *Ctx, rr *core.RuleResult) {
+			read := c.mustFn(rr, "parser.(*lexer).read")
+			if read == nil {
+				return
+			}
+			info := read.Info()
+			var srcs []*types.Var
+			seen := map[*types.Var]bool{}
+			read.OwnNodes(func(x ast.Node) bool {
+				call, ok := x.(*ast.CallExpr)
+				if !ok {
+					return true
+				}
+				sel, ok := call.Fun.(*ast.SelectorExpr)
+				if !ok || sel.Sel.Name != "ReadRune" {
+					return true
+				}
+				// the lexer field at the root of the receiver expression
+				e := sel.X
+				for hops := 0; hops < 8; hops++ {
+					switch y := ast.Unparen(e).(type) {
+					case *ast.Ident:
+						// a local bound to an element of the field (`a := l.aliases[i]`,
+						// `for _, a := range l.aliases`)
+						def := localDef(read, info, info.Uses[y])
+						if def == nil {
+							return true
+						}
+						e = def
+						continue
+					case *ast.IndexExpr:
+						e = y.X
+						continue
+					case *ast.SelectorExpr:
+						if id, isID := ast.Unparen(y.X).(*ast.Ident); isID && isRecv(read, info.Uses[id]) {
+							if v := core.FieldOf(info, y); v != nil && !seen[v] {
+								seen[v] = true
+								srcs = append(srcs, v)
+							}
+							return true
+						}
+						e = y.X
+						continue
+					}
+					return true
+				}
+				return true
+			})
+			if len(srcs) == 0 {
+				rr.Unk(read, read.Name+"|rune sources", read.Pos(), "no ReadRune call through a lexer field found in read()")
+				return
+			}
+			lexT := read.Obj.Type().(*types.Signature).Recv().Type()
+			if p, ok := lexT.(*types.Pointer); ok {
+				lexT = p.Elem()
+			}
+			n := 0
+			for _, f := range c.funcsOfPkg("parser", false) {
+				root := f.Root()
+				if root.Obj == nil {
+					continue
+				}
+				sig := root.Obj.Type().(*types.Signature)
+				if sig.Recv() == nil {
+					continue
+				}
+				rt := sig.Recv().Type()
+				if p, ok := rt.(*types.Pointer); ok {
+					rt = p.Elem()
+				}
+				if !types.Identical(rt, lexT) {
+					continue
+				}
+				fi := f.Info()
+				f.OwnNodes(func(x ast.Node) bool {
+					cl, ok := x.(*ast.CompositeLit)
+					if !ok {
+						return true
+					}
+					tv, ok := fi.Types[cl]
+					if !ok || !types.Identical(tv.Type, lexT) {
+						return true
+					}
+					n++
+					// the variable the literal is bound to
+					var nested types.Object
+					for p := c.P.Parent(cl); p != nil; p = c.P.Parent(p) {
+						if as, isAs := p.(*ast.AssignStmt); isAs && len(as.Lhs) == 1 {
+							if id, isID := as.Lhs[0].(*ast.Ident); isID {
+								if nested = fi.Defs[id]; nested == nil {
+									nested = fi.Uses[id]
+								}
+							}
+							break
+						}
+						if _, isStmt := p.(ast.Stmt); isStmt {
+							break
+						}
+					}
+					for _, src := range srcs {
+						key := f.Name + "|nested lexer shares " + src.Name()
+						var init ast.Expr
+						for _, el := range cl.Elts {
+							if kv, isKV := el.(*ast.KeyValueExpr); isKV {
+								if id, isID := kv.Key.(*ast.Ident); isID && fi.Uses[id] == src {
+									init = kv.Value
+								}
+							}
+						}
+						fromRecv := false
+						if se, isSel := ast.Unparen(init).(*ast.SelectorExpr); init != nil && isSel {
+							if id, isID := ast.Unparen(se.X).(*ast.Ident); isID && isRecv(root, fi.Uses[id]) && core.FieldOf(fi, se) == src {
+								fromRecv = true
+							}
+						}
+						if !fromRecv {
+							rr.Bad(f, key, cl.Pos(), "the nested lexer does not take `"+src.Name()+"` from its creator: text pending in that source is parsed by the wrong lexer (a substitution opened inside an alias value is read from the main source; at EOF the nested parse succeeds with no command and cmds[0] panics)")
+							continue
+						}
+						// held by value: must be taken back
+						if _, isSlice := src.Type().Underlying().(*types.Slice); isSlice {
+							back := false
+							ast.Inspect(root.Body, func(y ast.Node) bool {
+								as, isAs := y.(*ast.AssignStmt)
+								if !isAs || len(as.Lhs) != 1 || len(as.Rhs) != 1 {
+									return true
+								}
+								ls, ok1 := ast.Unparen(as.Lhs[0]).(*ast.SelectorExpr)
+								rs, ok2 := ast.Unparen(as.Rhs[0]).(*ast.SelectorExpr)
+								if !ok1 || !ok2 || core.FieldOf(fi, ls) != src || core.FieldOf(fi, rs) != src {
+									return true
+								}
+								lid, ok1 := ast.Unparen(ls.X).(*ast.Ident)
+								rid, ok2 := ast.Unparen(rs.X).(*ast.Ident)
+								if ok1 && ok2 && isRecv(root, fi.Uses[lid]) && nested != nil && fi.Uses[rid] == nested {
+									back = true
+								}
+								return true
+							})
+							if !back {
+								rr.Bad(f, key+" (taken back)", cl.Pos(), "`"+src.Name()+"` is a slice shared by value: what the nested lexer consumed or popped is not copied back to its creator")
+								continue
+							}
+						}
+						rr.OK(f, key, cl.Pos(), "shared", "initialised from the creator's field"+map[bool]string{true: " and copied back", false: ""}[isSliceVar(src)])
+					}
+					return true
+				})
+			}
+			if n == 0 {
+				rr.OKp(c.P, "parser|nested lexers", 0, "none", "no lexer is created inside a lexer method")
+			}
+		}}
+}
+
+func isSliceVar(v *types.Var) bool {
+	_, ok := v.Type().Underlying().(*types.Slice)
+	return ok
+}
+
+// isRecv reports whether obj is the receiver variable of f's declared root.
+func isRecv(f *core.Func, obj types.Object) bool {
+	if obj == nil {
+		return false
+	}
+	root := f.Root()
+	if root.Obj == nil {
+		return false
+	}
+	recv := root.Obj.Type().(*types.Signature).Recv()
+	return recv != nil && recv == obj
+}
+
+// ---------------------------------------------------------------------------
+// ER1: a syntax error is dropped only in favour of an error already recorded.
+
+func ruleER1() Rule {
+	return Rule{ID: "ER1", Kind: "must", Floor: 2,
+		Doc: "in the parser lexer's error function every way of not recording the reported message - an early return, or the untaken side of a conditional store - is conditional on `l.err != nil`: a syntax error is discarded only when another error is already recorded, so an ill-formed program can never come back with a nil error",
+		Run: func(c *Ctx, rr *core.RuleResult) {
+			f := c.mustFn(rr, "parser.(*lexer).error")
+			if f == nil {
+				return
+			}
+			info := f.Info()
+			errF := c.fieldVar("parser", "lexer", "err")
+			isStore := func(n ast.Node) bool {
+				as, ok := n.(*ast.AssignStmt)
+				if !ok {
+					return false
+				}
+				for _, l := range as.Lhs {
+					if core.FieldOf(info, l) == errF {
+						return true
+					}
+				}
+				return false
+			}
+			// atoms of cond under the given polarity
+			var atoms func(e ast.Expr, pos bool, out *[]guard)
+			atoms = func(e ast.Expr, pos bool, out *[]guard) {
+				e = ast.Unparen(e)
+				if u, ok := e.(*ast.UnaryExpr); ok && u.Op == token.NOT {
+					atoms(u.X, !pos, out)
+					return
+				}
+				if be, ok := e.(*ast.BinaryExpr); ok {
+					if (be.Op == token.LAND && pos) || (be.Op == token.LOR && !pos) {
+						atoms(be.X, pos, out)
+						atoms(be.Y, pos, out)
+						return
+					}
+				}
+				*out = append(*out, guard{e, pos})
+			}
+			recorded := func(gs []guard) bool {
+				for _, g := range gs {
+					be, ok := ast.Unparen(g.cond).(*ast.BinaryExpr)
+					if !ok || core.FieldOf(info, be.X) != errF || !isNilIdent(info, be.Y) {
+						continue
+					}
+					if (be.Op == token.NEQ && g.pos) || (be.Op == token.EQL && !g.pos) {
+						return true
+					}
+				}
+				return false
+			}
+			stored := core.NewFlow(f).MustSeen(false, isStore, nil)
+			n := 0
+			f.OwnNodes(func(x ast.Node) bool {
+				switch x := x.(type) {
+				case *ast.ReturnStmt:
+					if stored[x] {
+						return true
+					}
+					n++
+					key := f.Name + "|message dropped by early return"
+					if recorded(guardsOf(c.P, x, nil)) {
+						rr.OK(f, key, x.Pos(), "already-recorded", "returns without recording only when l.err != nil")
+					} else {
+						rr.Bad(f, key, x.Pos(), "the reported message is discarded on a path where no error is known to be recorded: the parse can end with a nil error although the parser rejected the input")
+					}
+				case *ast.IfStmt:
+					hasStore := false
+					for _, st := range x.Body.List {
+						if isStore(st) {
+							hasStore = true
+						}
+					}
+					if !hasStore || x.Else != nil {
+						return true
+					}
+					n++
+					key := f.Name + "|message dropped by conditional store"
+					var gs []guard
+					atoms(x.Cond, false, &gs)
+					gs = append(gs, guardsOf(c.P, x, nil)...)
+					if recorded(gs) {
+						rr.OK(f, key, x.Pos(), "already-recorded", "the store is skipped only when l.err != nil")
+					} else {
+						rr.Bad(f, key, x.Pos(), "the store of the new error can be skipped while l.err may be nil")
+					}
+				}
+				return true
+			})
+			if n == 0 {
+				rr.OKp(c.P, f.Name+"|unconditional store", 0, "always", "every call records its message")
+			}
+		}}
+}
+
+// ---------------------------------------------------------------------------
+// CC9: the token channel is a rendezvous.
+//
+// CC6's argument that the lexer's wait in heredoc.pop is always answered, and
+// the claim that the amount of source consumed is fixed by the input, both rest
+// on the lexer being at most one token ahead of the parser.
+
+func ruleCC9() Rule {
+	return Rule{ID: "CC9", Kind: "must", Floor: 2,
+		Doc: "every channel on which the parser package's lexer sends tokens is created unbuffered: the lexer reaches the newline after `<<WORD` only after the parser has received both tokens (so the push that pop waits for is certain), and it never scans ahead of a parser that has already failed (so the input consumed does not depend on the schedule)",
+		Run: func(c *Ctx, rr *core.RuleResult) {
+			pkg := "parser"
+			pk := c.P.Pkgs[pkg]
+			// fields of the lexer sent on by functions of the package
+			lexFields := map[*types.Var]bool{}
+			if tn, ok := pk.Types.Scope().Lookup("lexer").(*types.TypeName); ok {
+				if st, ok := tn.Type().Underlying().(*types.Struct); ok {
+					for i := 0; i < st.NumFields(); i++ {
+						lexFields[st.Field(i)] = true
+					}
+				}
+			}
+			sent := map[*types.Var]bool{}
+			for _, f := range c.funcsOfPkg(pkg, false) {
+				info := f.Info()
+				f.OwnNodes(func(n ast.Node) bool {
+					if s, ok := n.(*ast.SendStmt); ok {
+						if v := core.FieldOf(info, s.Chan); v != nil && lexFields[v] {
+							sent[v] = true
+						}
+					}
+					return true
+				})
+			}
+			if len(sent) == 0 {
+				rr.Unkp(c.P, pkg+"|token channel", 0, "no send on a struct field found")
+				return
+			}
+			n := 0
+			check := func(f *core.Func, v *types.Var, e ast.Expr) {
+				info := f.Info()
+				call, ok := ast.Unparen(e).(*ast.CallExpr)
+				key := f.Name + "|" + v.Name() + " unbuffered"
+				if !ok || !isBuiltinCall(info, call, "make") {
+					rr.Unk(f, key, e.Pos(), "the channel is not created by make at this site")
+					return
+				}
+				n++
+				if len(call.Args) == 1 {
+					rr.OK(f, key, call.Pos(), "unbuffered", "make without capacity")
+					return
+				}
+				if k, isConst := constInt(info, call.Args[1]); isConst && k == 0 {
+					rr.OK(f, key, call.Pos(), "unbuffered", "capacity 0")
+					return
+				}
+				rr.Bad(f, key, call.Pos(), "the token channel has a buffer: the lexer can count a here-document and wait in pop for a push the failed parser never makes (hang), and how far it reads ahead after a syntax error depends on the schedule")
+			}
+			for _, f := range c.funcsOfPkg(pkg, false) {
+				info := f.Info()
+				f.OwnNodes(func(x ast.Node) bool {
+					switch x := x.(type) {
+					case *ast.KeyValueExpr:
+						if id, ok := x.Key.(*ast.Ident); ok {
+							if v, isVar := info.Uses[id].(*types.Var); isVar && sent[v] {
+								check(f, v, x.Value)
+							}
+						}
+					case *ast.AssignStmt:
+						for i, l := range x.Lhs {
+							if v := core.FieldOf(info, l); v != nil && sent[v] && len(x.Rhs) == len(x.Lhs) {
+								check(f, v, x.Rhs[i])
+							}
+						}
+					}
+					return true
+				})
+			}
+			if n == 0 {
+				rr.Unkp(c.P, pkg+"|token channel", 0, "no creation site of the token channel found")
+			}
+		}}
+}
+
+// ---------------------------------------------------------------------------
+// CC10: cancellation is observed only where the lexer hands over a token.
+
+func ruleCC10(pkgs ...string) Rule {
+	return Rule{ID: "CC10", Kind: "must-not", Floor: 1,
+		Doc: "the cancel channel is never polled: a receive from it appears only as an alternative to a blocking communication (the send in emit), or in the close-once idiom `select { case <-cancel: default: close(cancel) }` whose receive arm does nothing; a poll elsewhere makes what the lexer does next - how much source it reads, which error it records - depend on when the parser got to close the channel",
+		Run: func(c *Ctx, rr *core.RuleResult) {
+			for _, pkg := range pkgs {
+				cancel := c.fieldVar(pkg, "lexer", "cancel")
+				if cancel == nil {
+					rr.Unkp(c.P, pkg+"|cancel field", 0, "lexer.cancel not found")
+					continue
+				}
+				n := 0
+				for _, f := range c.funcsOfPkg(pkg, false) {
+					info := f.Info()
+					f.OwnNodes(func(x ast.Node) bool {
+						u, ok := x.(*ast.UnaryExpr)
+						if !ok || u.Op != token.ARROW || core.FieldOf(info, u.X) != cancel {
+							return true
+						}
+						n++
+						key := fmt.Sprintf("%s|receive from cancel #%d", f.Name, n)
+						var cc *ast.CommClause
+						var sel *ast.SelectStmt
+						for p := c.P.Parent(u); p != nil; p = c.P.Parent(p) {
+							if k, isCC := p.(*ast.CommClause); isCC && cc == nil {
+								if k.Comm != nil && k.Comm.Pos() <= u.Pos() && u.End() <= k.Comm.End() {
+									cc = k
+								}
+							}
+							if s, isSel := p.(*ast.SelectStmt); isSel && cc != nil {
+								sel = s
+								break
+							}
+							if _, isFn := p.(*ast.FuncLit); isFn {
+								break
+							}
+						}
+						if sel == nil {
+							// a plain blocking receive: waits for cancellation, decides nothing by timing
+							rr.OK(f, key, u.Pos(), "blocking", "a blocking receive")
+							return true
+						}
+						var dflt *ast.CommClause
+						blockingOther := false
+						for _, st := range sel.Body.List {
+							k := st.(*ast.CommClause)
+							if k.Comm == nil {
+								dflt = k
+							} else if k != cc {
+								blockingOther = true
+							}
+						}
+						switch {
+						case dflt == nil && blockingOther:
+							rr.OK(f, key, u.Pos(), "alternative", "alternative to a blocking communication")
+						case dflt != nil && len(cc.Body) == 0 && closesOnly(info, dflt, cancel):
+							rr.OK(f, key, u.Pos(), "close-once", "close-once idiom")
+						case dflt == nil:
+							rr.OK(f, key, u.Pos(), "blocking", "a blocking receive")
+						default:
+							rr.Bad(f, key, u.Pos(), "the cancel channel is polled (select with default): the code after it runs or not depending on whether the parser has already cancelled, so the result or the amount of source consumed depends on the schedule")
+						}
+						return true
+					})
+				}
+				rr.OKp(c.P, pkg+"|receives from cancel enumerated", 0, "enumerated", fmt.Sprintf("%d receive sites", n))
+			}
+		}}
+}
+
+func closesOnly(info *types.Info, k *ast.CommClause, ch *types.Var) bool {
+	if len(k.Body) != 1 {
+		return false
+	}
+	es, ok := k.Body[0].(*ast.ExprStmt)
+	if !ok {
+		return false
+	}
+	call, ok := es.X.(*ast.CallExpr)
+	return ok && isBuiltinCall(info, call, "close") && len(call.Args) == 1 && core.FieldOf(info, call.Args[0]) == ch
+}
+
+// ---------------------------------------------------------------------------
+// LB1: the `linebreak` of sequential_sep in a for header.
+//
+// for_clause : For name linebreak In wordlist sequential_sep do_group, with
+// sequential_sep : ';' linebreak | newline_list.  The lexer has to find the
+// reserved word `do` itself, so it must skip that linebreak itself: in every
+// function that looks for Do, each emitted separator is followed by a call of
+// linebreak() before the next token is fetched or the state is handed on.
+
+func ruleLB1() Rule {
+	return Rule{ID: "LB1", Kind: "must", Floor: 3,
+		Doc: "in every lexer state that looks for the reserved word `do` after a separator, each emit of ';' or newline is followed on every path by a call of linebreak() before the next token fetch or state hand-over: blank lines and comment lines are allowed between `for name;` / `in words;` and `do` (sequential_sep : ';' linebreak)",
+		Run: func(c *Ctx, rr *core.RuleResult) {
+			pk := c.P.Pkgs["parser"]
+			doTok := pk.Types.Scope().Lookup("Do")
+			lb := c.mustFn(rr, "parser.(*lexer).linebreak")
+			emit := c.mustFn(rr, "parser.(*lexer).emit")
+			raw := c.mustFn(rr, "parser.(*lexer).scanRawToken")
+			scan := c.fn("parser.(*lexer).scanToken")
+			tr := c.fn("parser.(*lexer).tr")
+			if doTok == nil || lb == nil || emit == nil || raw == nil || tr == nil {
+				return
+			}
+			isSepConst := func(info *types.Info, e ast.Expr) bool {
+				k, ok := constInt(info, e)
+				return ok && (k == ';' || k == '\n')
+			}
+			total := 0
+			for _, f := range c.funcsOfPkg("parser", false) {
+				if f.Lit != nil {
+					continue
+				}
+				info := f.Info()
+				// in scope: compares with Do and emits a separator
+				looks := false
+				f.OwnNodes(func(n ast.Node) bool {
+					if id, ok := n.(*ast.Ident); ok && info.Uses[id] == doTok {
+						if _, isCall := c.P.Parent(id).(*ast.CallExpr); !isCall {
+							looks = true
+						}
+					}
+					return true
+				})
+				if !looks || !c.callsFunc(info, f.Body, tr) {
+					continue
+				}
+				isSepEmit := func(n ast.Node) bool {
+					call, ok := n.(*ast.CallExpr)
+					if !ok || len(call.Args) != 1 {
+						return false
+					}
+					fo := core.StaticCallee(info, call)
+					if fo == nil || c.P.FuncOf(fo) != emit {
+						return false
+					}
+					if isSepConst(info, call.Args[0]) {
+						return true
+					}
+					if _, isID := ast.Unparen(call.Args[0]).(*ast.Ident); isID {
+						if cc := enclosingCase(c.P, call); cc != nil && len(cc.List) > 0 {
+							for _, e := range cc.List {
+								if !isSepConst(info, e) {
+									return false
+								}
+							}
+							return true
+						}
+					}
+					return false
+				}
+				isLB := func(n ast.Node) bool {
+					call, ok := n.(*ast.CallExpr)
+					if !ok {
+						return false
+					}
+					fo := core.StaticCallee(info, call)
+					return fo != nil && c.P.FuncOf(fo) == lb
+				}
+				nsep := 0
+				f.OwnNodes(func(n ast.Node) bool {
+					if isSepEmit(n) {
+						nsep++
+					}
+					return true
+				})
+				if nsep == 0 {
+					continue
+				}
+				seen := core.NewFlow(f).MustSeen(true, isLB, isSepEmit)
+				f.OwnNodes(func(n ast.Node) bool {
+					switch x := n.(type) {
+					case *ast.CallExpr:
+						fo := core.StaticCallee(info, x)
+						if fo == nil {
+							return true
+						}
+						g := c.P.FuncOf(fo)
+						if g != raw && (scan == nil || g != scan) {
+							return true
+						}
+						total++
+						key := fmt.Sprintf("%s|%s after a separator", f.Name, g.Short)
+						if seen[x] {
+							rr.OK(f, key, x.Pos(), "linebreak", "no separator was emitted since the last linebreak()")
+						} else {
+							rr.Bad(f, key, x.Pos(), "a token is fetched after `;`/newline was emitted without skipping the linebreak: `for x;` followed by a blank or comment line before `do` is rejected")
+						}
+					case *ast.ReturnStmt:
+						if len(x.Results) != 1 || isNilIdent(info, x.Results[0]) {
+							return true
+						}
+						total++
+						key := f.Name + "|state handed over after a separator"
+						if seen[x] {
+							rr.OK(f, key, x.Pos(), "linebreak", "no separator pending")
+						} else {
+							rr.Bad(f, key, x.Pos(), "the state is handed over after `;`/newline was emitted without skipping the linebreak that sequential_sep allows")
+						}
+					}
+					return true
+				})
+			}
+			if total == 0 {
+				rr.Unkp(c.P, "parser|for header", 0, "no lexer state looking for `do` after a separator found")
+			}
+		}}
+}
+
+// ---------------------------------------------------------------------------
+// PS1: two positions are compared with both coordinates.
+
+func rulePS1(pkgs ...string) Rule {
+	return Rule{ID: "PS1", Kind: "must", Floor: 1,
+		Doc: "wherever the columns of two positions are compared for (in)equality, the same condition compares their lines too: adjacency of two tokens (is a blank needed between them?) cannot be decided from columns alone once the tokens are on different lines",
+		Run: func(c *Ctx, rr *core.RuleResult) {
+			n := 0
+			for _, pkg := range pkgs {
+				for _, f := range c.funcsOfPkg(pkg, false) {
+					info := f.Info()
+					coord := func(e ast.Expr, name string) bool {
+						call, ok := ast.Unparen(e).(*ast.CallExpr)
+						if !ok || len(call.Args) != 0 {
+							return false
+						}
+						fo := core.StaticCallee(info, call)
+						if fo == nil || fo.Name() != name || fo.Pkg() == nil || fo.Pkg().Name() != "ast" {
+							return false
+						}
+						sig := fo.Type().(*types.Signature)
+						return sig.Recv() != nil && namedTypeName(sig.Recv().Type()) == "ast.Pos"
+					}
+					f.OwnNodes(func(x ast.Node) bool {
+						be, ok := x.(*ast.BinaryExpr)
+						if !ok || (be.Op != token.EQL && be.Op != token.NEQ) || !coord(be.X, "Col") || !coord(be.Y, "Col") {
+							return true
+						}
+						n++
+						var top ast.Expr = be
+						for {
+							p, ok := c.P.Parent(top).(ast.Expr)
+							if !ok {
+								break
+							}
+							if _, isCall := p.(*ast.CallExpr); isCall {
+								break
+							}
+							top = p
+						}
+						lines := false
+						ast.Inspect(top, func(y ast.Node) bool {
+							if b2, ok := y.(*ast.BinaryExpr); ok && b2.Op == be.Op && coord(b2.X, "Line") && coord(b2.Y, "Line") {
+								lines = true
+							}
+							return true
+						})
+						key := f.Name + "|column comparison of two positions"
+						if lines {
+							rr.OK(f, key, be.Pos(), "line+col", "lines are compared in the same condition")
+						} else {
+							rr.Bad(f, key, be.Pos(), "two positions are compared by column only: tokens that happen to start in the same column of different lines are taken for adjacent (the printer glues `1` and `+` of an arithmetic expression broken over lines)")
+						}
+						return true
+					})
+				}
+			}
+			if n == 0 {
+				rr.OKp(c.P, "column comparisons", 0, "none", "no position-to-position column comparison")
+			}
+		}}
+}
+
+// localDef returns the expression a local variable of f is defined from: the
+// right-hand side of its `:=` / var declaration, or the ranged expression when
+// it is the value variable of a range statement.
+func localDef(f *core.Func, info *types.Info, obj types.Object) ast.Expr {
+	if obj == nil {
+		return nil
+	}
+	var out ast.Expr
+	f.OwnNodes(func(n ast.Node) bool {
+		switch x := n.(type) {
+		case *ast.AssignStmt:
+			if x.Tok == token.DEFINE && len(x.Lhs) == len(x.Rhs) {
+				for i, l := range x.Lhs {
+					if id, ok := l.(*ast.Ident); ok && info.Defs[id] == obj {
+						out = x.Rhs[i]
+					}
+				}
+			}
+		case *ast.ValueSpec:
+			for i, id := range x.Names {
+				if info.Defs[id] == obj && i < len(x.Values) {
+					out = x.Values[i]
+				}
+			}
+		case *ast.RangeStmt:
+			if id, ok := x.Value.(*ast.Ident); ok && info.Defs[id] == obj {
+				out = x.X
+			}
+		}
+		return true
+	})
+	return out
+}
